@@ -60,6 +60,10 @@ def conds_attr(tier):
     for f in (INLINE_QUICK if tier == "quick" else FAULTS):
         cs.append(xhrun.Cond("harness_tb", "c19_attr", {"XH_FAULT": f, "XH_BASE": "inline", "XH_DMAX": dmax}, timeout=300,
                              label=f"c19_attr_{f}_inline", note=KIND[f]))
+    # the same creating lines reached earlier through a different caller chain (decoy plan): attribution must not depend on it
+    for f in (FAULTS[:3] if tier == "quick" else FAULTS):
+        cs.append(xhrun.Cond("harness_tb", "c19_attr", {"XH_FAULT": f, "XH_BASE": "fresh", "XH_DMAX": dmax, "XH_WARM": 1}, timeout=300,
+                             label=f"c19_attr_{f}_fresh_warm", note=KIND[f]))
     if tier != "quick":
         for f in FAULTS:
             cs.append(xhrun.Cond("harness_tb", "c19_attr", {"XH_FAULT": f, "XH_BASE": "fresh", "XH_DMAX": 6, "XH_ORDER": "fifo"},
